@@ -480,6 +480,7 @@ def gen(seed, profile='general', big=False):
           'cold': {'capacity': cold_cap, 'max_data_rate': cold_rate},
           'obs': obs, 'wfs': wfs, 'pairing': pairing, 'alg_params': ap, 'static': static,
           'machine_order': machine_order,
+          'pipeline_order': rng.choice(['plan', 'plan', 'reversed', 'reversed', 'extra']),
           'cluster_header': ({'time': 'false', 'generator': 'hpconfig', 'architecture': {'cpu': {'XeonIvyBridge': nm}, 'gpu': {}},
                               'gen_specs': {'file': 'x.json', 'seed': 20, 'range': '[(10, 10)]',
                                             'heterogeneity': rng.choice([0, 0, 0.4, 1]), 'multiplier': 1}}
